@@ -325,7 +325,7 @@ func checkUnmarshalC18(c *h.Ctx, typ, in string) {
 	mustErr := !isString || len(content) < 5 || !strings.ContainsAny(content, "0123456789")
 	// ... or a string with a character no datetime text of any type contains
 	// (a well-formed value followed by anything else is not a value)
-	if strings.Trim(content, "0123456789-+:.TZ ") != "" {
+	if strings.Trim(content, "0123456789-+:.TZtz ") != "" {
 		mustErr = true
 	}
 	for _, via := range []string{"direct", "json.Unmarshal"} {
